@@ -28,7 +28,8 @@ from vf.core import Case, Ob
 from vf import lib, sym
 from vf.env import shadow_builtins, patched, NpProxy
 from vf.sym import S, SI, SB
-from vf.timeidx import TI, sym_int, near_time, as_int, all_of, any_of, is_nan_entry, p_arange
+from vf.poly import ob_eq_poly
+from vf.timeidx import time_np_overrides, TI, sym_int, near_time, as_int, all_of, any_of, is_nan_entry, p_arange
 
 ASSUMPTIONS = [
     "exact real arithmetic for times (float times are start + dt*(k+e), |e|<1/2: ties and floating-point "
@@ -37,7 +38,7 @@ ASSUMPTIONS = [
 ]
 
 SD = "oqupy.system_dynamics"
-ENV_SD = {"extra": dict(shadow_builtins(SD, ("isinstance", "int", "float")), **{SD + ".np": NpProxy({"arange": p_arange})})}
+ENV_SD = {"extra": dict(shadow_builtins(SD, ("isinstance", "int", "float")), **{SD + ".np": NpProxy(time_np_overrides())})}
 
 
 def _quiet():
@@ -180,13 +181,13 @@ class H1Interval(Case):
         else:
             k0 = sym_int(inp, "k0", -2, N + 2)
             k1 = sym_int(inp, "k1", -2, N + 2)
-            inp.assume(~all_of([k0 > k1, k1 == 0]))          # -> part 'rev_to0'
+            inp.assume(_neg(all_of([k0 > k1, k1 == 0])))     # -> part 'rev_to0'
         t0 = near_time(inp, "t0", k0, start, dt)
         t1 = near_time(inp, "t1", k1, start, dt)
         tag, r = _parse((t0, t1), N, dt, start)
         inside = all_of([k0 >= 0, k0 <= N, k1 >= 0, k1 <= N])
         if tag != "ok":
-            return [Ob.holds("IndexError only when an end point is out of range", ~inside if isinstance(inside, SB) else not inside)]
+            return [Ob.holds("IndexError only when an end point is out of range", _neg(inside))]
         # inclusive at both ends, in the direction given
         c0, c1 = as_int(k0), as_int(k1)
         exp = list(range(c0, c1 + 1)) if c0 <= c1 else list(range(c0, c1 - 1, -1))
@@ -352,11 +353,12 @@ class H2(Case):
              for k in range(n) for i in range(len(idx[k]))]), key="time_axes"))
         # kernel calls: operators paired with the times of the same position, everything else forwarded
         exp_ops = [ops[k] for k in order]
-        fwd = all(c["operators"][j] is exp_ops[j] for c in stub.calls for j in range(n)) \
-            and all(c["system"] is system and c["process_tensor"] is pt and c["initial_state"] is rho0 and c["start_time"] is start
+        fwd = all(np.array_equal(c["operators"][j], exp_ops[j]) for c in stub.calls for j in range(n)) \
+            and all(c["system"] is system and c["process_tensor"] is pt and np.array_equal(c["initial_state"], rho0)
                     for c in stub.calls)
+        fwd = all_of([fwd] + [_eq_entry(c["start_time"], start) for c in stub.calls])
         if self.api == "nt":
-            fwd = fwd and all(list(c["ops_order"]) == ops_order for c in stub.calls)
+            fwd = all_of([fwd, all(list(c["ops_order"]) == ops_order for c in stub.calls)])
         obs.append(Ob.holds("kernel gets the operators in the order of their times; system, process tensor, initial state, start_time forwarded", fwd, key="kernel_args"))
         # entries, row by row (row = one choice of the earlier operators' times)
         nidx = [idx[k] for k in order]                 # kernel order
@@ -588,7 +590,7 @@ class H4(Case):
             if is_nan_entry(got):
                 obs.append(Ob.holds(label + " is not NaN", False, key="value"))
             else:
-                obs.append(Ob.eq(label + " == explicit evolution", got, exp, key="value"))
+                obs.append(ob_eq_poly(inp, label + " == explicit evolution", got, exp, key="value"))
         return obs
 
 
